@@ -47,6 +47,14 @@ func registerVxFS(e *Engine) {
 		st.nodes[p] = &fsNode{name: p, data: data, mode: 0o644, complete: true, gen: st.nextGen}
 		return nil
 	})
+	e.reg(vxPath+".FSSparseFile", func(ex *Exec, fr *frame, args []Value) Value {
+		st := ex.fs()
+		p := ex.fsPath(args[0])
+		ex.ensureDirs(st, parentDir(p))
+		st.nextGen++
+		st.nodes[p] = &fsNode{name: p, vsize: int(ex.concreteInt(args[1], "FSSparseFile size", true)), mode: 0o644, complete: true, gen: st.nextGen}
+		return nil
+	})
 	e.reg(vxPath+".FSSetMtime", func(ex *Exec, fr *frame, args []Value) Value {
 		st := ex.fs()
 		if n := st.nodes[ex.fsPath(args[0])]; n != nil {
